@@ -323,5 +323,6 @@ func TestProp(t *testing.T) {
 func TestReplay(t *testing.T) {
 	outerT = t
 	pbt.Register(run, def)
+	pbt.Register(run, defSame)
 	run.Replay(t)
 }
